@@ -43,6 +43,64 @@ def run(run):
                 % (len(supported), len(known) - len(supported)))
     run.assumptions = ['supported versions = minecraft.SUPPORTED_PROTOCOL_'
                        'VERSIONS of the tree under test']
+    # ---- reactors built by several threads at once ----------------------------
+    # (done first: whatever is memoised per process must be seen while it is
+    # being built, not after the sequential sweep below has completed it)
+    rng = run.rng('orders')
+    # (each connection builds its reactor in whatever thread calls connect();
+    # a table shared between them must never be observed half-built)
+    import sys
+    import threading
+    from ..probes.linemon import LineMonitor
+    expect = {}
+    for pv in supported:
+        ctx = C.ConnectionContext(protocol_version=pv)
+        for state, R in reactors:
+            expect[(R, pv)] = {k.get_id(ctx): k
+                               for k in R.get_clientbound_packets(ctx)}
+    problems = []
+    jobs = [(R, pv) for pv in rng.sample(supported, 24) for _s, R in reactors
+            if R is not C.PacketReactor]
+
+    def builder(seed):
+        import random
+        r = random.Random(seed)
+        mine = list(jobs)
+        r.shuffle(mine)
+        for R, pv in mine:
+            ctx = C.ConnectionContext(protocol_version=pv)
+            try:
+                table = R(_StubConnection(ctx)).clientbound_packets
+            except Exception as e:
+                problems.append((R.__name__, pv, repr(e)))
+                continue
+            want = expect[(R, pv)]
+            if len(want) == len({k for k in
+                                 R.get_clientbound_packets(ctx)}) and \
+                    dict(table) != want:
+                problems.append((R.__name__, pv, 'table has %d entries, '
+                                 'expected %d' % (len(table), len(want))))
+    old_si = sys.getswitchinterval()
+    sys.setswitchinterval(1e-6)
+    try:
+        with LineMonitor(files=['minecraft/networking/connection.py'],
+                         yield_prob=0.2, seed=run.seed) as mon:
+            ts = [threading.Thread(target=builder, args=(i,))
+                  for i in range(4)]
+            for t in ts:
+                t.start()
+            for t in ts:
+                t.join(120.0)
+            run.count('concurrent_reactor_builds', 4 * len(jobs))
+            run.count('concurrent_reactor_yields', mon.yields)
+    finally:
+        sys.setswitchinterval(old_si)
+    run.bulk(4 * len(jobs), 0)
+    if problems:
+        run.violation('reactor-dict/concurrent-build', 'a reactor built while '
+                      'another thread was building one got an incomplete or '
+                      'wrong id table', {'first': problems[0],
+                                         'count': len(problems)})
     unsupported_report = []
     ids_checked = 0
     for pv in known:
@@ -177,3 +235,4 @@ def run(run):
     run.require('ids_checked', 5000)
     run.require('reactor_dicts_inspected', 1000)
     run.require('history_table_reads', 5000)
+    run.require('concurrent_reactor_builds', 100)
